@@ -494,4 +494,27 @@ theorem masks_select : ∀ (a j : Fin 8),
     (2 ^ (8 - a.val) - 1).testBit (7 - j.val) = decide (a.val ≤ j.val) ∧
     (256 - 2 ^ (7 - a.val)).testBit (7 - j.val) = decide (j.val ≤ a.val) := by decide
 
+
+/-- the offset test of SETBIT as coded = the model's (`cmdSetBit`): negative, or beyond the 2^32 bits of 512 MB -/
+theorem go_setbitOffsetGuard (o : BitVec 64) :
+    Go.setbitOffsetGuard o = (decide (o.toInt < 0) || decide (o.toInt ≥ 4294967296)) := by
+  unfold Go.setbitOffsetGuard
+  simp only [BitVec.slt, BitVec.sle]
+  have : (4294967296#64).toInt = 4294967296 := by decide
+  simp [this]
+
+/-- the size test of SETRANGE as coded = the model's (`cmdSetRange`), for every int64 offset and every length a string
+    can have: the wrapped sum `offset + len` is the true sum whenever the first test has not fired already -/
+theorem go_setrangeSizeGuard (o l : BitVec 64) (hl : 0 ≤ l.toInt) (hl2 : l.toInt < 4611686018427387904) :
+    Go.setrangeSizeGuard o l = (decide (o.toInt > hugeAlloc) || decide (o.toInt + l.toInt > hugeAlloc)) := by
+  unfold Go.setrangeSizeGuard hugeAlloc
+  have ho := BitVec.le_toInt (x := o); have ho' := BitVec.toInt_lt (x := o)
+  simp at ho ho'
+  have h5 : (536870912#64).toInt = 536870912 := by decide
+  simp only [BitVec.slt, h5]
+  by_cases h : 536870912 < o.toInt
+  · simp [h]
+  · have := toInt_add_small o l (by omega) (by omega)
+    simp [h, this]
+
 end RedisEmu
